@@ -204,7 +204,7 @@ func genTuple(r *core.Rand) URLCase {
 	}
 	c.Register = r.Chance(0.75)
 	c.Via = core.Choice(r, []string{"dial", "dialctx"})
-	c.Stub = core.Choice(r, []string{"plain", "ctx", "both"})
+	c.Stub = core.Choice(r, []string{"plain", "ctx", "both", "plain", "ctx", "both", "alias"})
 	return c
 }
 
